@@ -21,8 +21,7 @@ NA = {
  "C15": "pure function of a directory's contents; the statement has no fault, crash or history clause",
  "C17": "pure function of one fitted curve",
 }
-PENDING = {"C18": "4.7",
-           "C19": "4.8", "C20": "4.9"}
+PENDING = {"C19": "4.8", "C20": "4.9"}
 
 CHECKS = {
  "C03": dict(engine="curve-sim", cat="exploration", ref="DESIGN.md 4.1",
@@ -43,6 +42,9 @@ CHECKS = {
  "C16": dict(engine="container-sim", cat="fault_enumeration", ref="DESIGN.md 4.6",
    text="histories of saves into 1-2 rating containers (new curve, same curve again, similar and clearly different fits, several measurement files and enumerations) against a reference map of acknowledged entries, on real HDF5 files with a simulated clock; for every flagged save (one per history in the quick tier, every save in the thorough tier) a failure is injected at EVERY h5py write call of that save, before the call takes effect and after it, each on its own copy of the container: the container must stay readable and equal to the reference, then the save is retried and must be a proper acknowledged save. Complete over the fault positions of the flagged saves; exploration over histories.",
    note="failures are exceptions the save observes (OSError at a write call); process death inside an HDF5 write is not modelled; 'clearly different' = fit differs by more than 0.1 % of its amplitude"),
+ "C18": dict(engine="registry-sim", cat="exploration", ref="DESIGN.md 4.7",
+   text="seeded histories of register / deregister / load_model_from_file calls on the process-wide registry with real model files in a scratch directory: valid models in three forms, every single-fault mutant of a valid module (all of them are met in every batch), missing / syntactically broken / raising / import-failing files, directories already on sys.path, same file name in another directory, edited-and-reloaded files, either bytecode-flag preset; after every op registry == reference dict with model identity, documented error classes, sys.path (order included) and sys.dont_write_bytecode unchanged, loaded model == the code in that file (outputs on seeded arrays, fit bit-equal to the shipped twin), ancillary seeding incl. NaN.",
+   note="the registry and the interpreter's import state are process-global: each run snapshots and restores them; error-class expectations are the harness's reading of the statement (see assumptions in the evidence)"),
 }
 
 
